@@ -83,3 +83,13 @@ def unique_minimiser(A, z, g, tol):
             return False
         s = np.linalg.svd(AS, compute_uv=False)
         return bool(s.min() > 1e-8 * max(1.0, s.max()))
+
+
+def consistent(M, b=None, tol=1e-7):
+    """is there a non-negative x with M x = b and sum(x) = n (i.e. a zero-residual solution WITHOUT help of the multiplier)?"""
+    with np.errstate(all="ignore"):
+        r, n = M.shape
+        A = np.vstack([M, np.ones(n)])
+        rhs = np.append(np.zeros(r) if b is None else np.asarray(b, float).ravel(), float(n))
+        x = lawson_hanson(A, rhs)
+        return bool(np.linalg.norm(A @ x - rhs) <= tol * max(1.0, n))
